@@ -14,6 +14,7 @@ import (
 	"time"
 
 	sdk "github.com/cosmos/cosmos-sdk/types"
+	"github.com/cosmos/cosmos-sdk/types/query"
 	"github.com/ethereum/go-ethereum/common"
 
 	bsctypes "github.com/teleport-network/teleport/x/xibc/clients/light-clients/bsc/types"
@@ -484,6 +485,26 @@ func storeReadBack(r *core.Run) {
 				return nil
 			})
 			reportHeights(r, cid, "ClientKeeper.IterateConsensusStates", heights, got, err)
+			// the query service reads the same keys back (paginated)
+			gotQ := map[string]bool{}
+			err, _ = core.Catch(func() error {
+				var next []byte
+				for page := 0; page < 50; page++ {
+					res, err := ck.ConsensusStates(sdk.WrapSDKContext(ctx), &clienttypes.QueryConsensusStatesRequest{ChainName: c.name, Pagination: &query.PageRequest{Key: next, Limit: 7}})
+					if err != nil {
+						return err
+					}
+					for _, cs := range res.ConsensusStates {
+						gotQ[cs.Height.String()] = true
+					}
+					if res.Pagination == nil || len(res.Pagination.NextKey) == 0 {
+						break
+					}
+					next = res.Pagination.NextKey
+				}
+				return nil
+			})
+			reportHeights(r, cid, "Query/ConsensusStates", heights, gotQ, err)
 			// per-type iterators
 			switch c.typ {
 			case exported.Tendermint:
